@@ -278,7 +278,9 @@ func runC17(c *Ctx) {
 		}
 		e := c.engine(r)
 		e.Run(sp, esp.State{})
-		n := c.reportEngine(e, "R3", func(v *esp.Violation) string { return "SevPolicy:" + load.FuncName(v.Fn) + ":" + strings.SplitN(strings.TrimPrefix(v.Msg, "R3: "), " ", 3)[1] })
+		n := c.reportEngine(e, "R3", func(v *esp.Violation) string {
+			return "SevPolicy:" + load.FuncName(v.Fn) + ":" + strings.SplitN(strings.TrimPrefix(v.Msg, "R3: "), " ", 3)[1]
+		})
 		c.S.Floor("R3", "stores to Policy.Policy/Measurement reached", 2, nst)
 		c.S.Floor("R3", "conflict-check calls reached", 1, ngate)
 		if n == 0 {
